@@ -301,6 +301,14 @@ def monitor_b(ctx, rng):
         (["Sequence", [[None, B], [None, ["Union", ["this", "_params", "sel"], [["a", B], ["b", I32], ["c", I16]]]], [None, I16]]], [7, {"b": 0x01020304}, 9], {"sel": "b"}),
         (["Struct", [["h", B], ["u", ["Union", "w", [["v", ["Struct", [["x", B], ["y", B]]]], ["w", ["Struct", [["n", B], ["d", ["Bytes", 3]]]]]]]], ["t", I16]]], {"h": 1, "u": {"w": {"n": 1, "d": b"abc"}}, "t": 2}, {}),
         (["FocusedSeq", "v", [["n", B], ["v", ["Bytes", ["this", "n"]]], [None, ["Const", tag(b"\xfe"), None]]]], None, {}),
+        # streamed bit regions with a validated sub-byte field (a rejected input leaves a half-read byte behind)
+        (["Bitwise", ["Struct", [["k", ["OneOf", ["name", "Nibble"], [1, 2]]], ["c", ["name", "Nibble"]], ["xs", ["Array", ["this", "c"], ["name", "Octet"]]]]]], {"k": 1, "c": 2, "xs": [0xab, 0xcd]}, {}),
+        (["Bitwise", ["Struct", [["k", ["OneOf", ["name", "Nibble"], [1, 2]]], ["c", ["name", "Nibble"]], ["xs", ["Array", ["this", "c"], ["name", "Nibble"]]]]]], {"k": 1, "c": 2, "xs": [0xa, 0xb]}, {}),
+        (["Bitwise", ["Struct", [["k", ["OneOf", ["name", "Nibble"], [1, 2]]], ["c", ["name", "Nibble"]], ["xs", ["Array", ["this", "c"], ["name", "Nibble"]]]]]], {"k": 2, "c": 4, "xs": [1, 2, 3, 4]}, {}),
+        (["Bitwise", ["Struct", [["f", ["OneOf", ["BitsInteger", 2, False, False], [1]]], ["n", ["BitsInteger", 2, False, False]], ["xs", ["Array", ["bin", "*", ["this", "n"], 2], ["BitsInteger", 2, False, False]]]]]], {"f": 1, "n": 2, "xs": [1, 2, 3, 0]}, {}),
+        (["Struct", [["h", B], ["b", ["Bitwise", ["Struct", [["k", ["OneOf", ["BitsInteger", 3, False, False], [1, 5]]], ["c", ["BitsInteger", 5, False, False]], ["xs", ["Array", ["this", "c"], ["BitsInteger", 16, False, True]]]]]]], ["t", B]]],
+         {"h": 7, "b": {"k": 5, "c": 1, "xs": [0x1234]}, "t": 9}, {}),
+        (["BitsSwapped", ["Struct", [["n", ["OneOf", B, [1, 2, 3]]], ["d", ["Bytes", ["this", "n"]]]]]], {"n": 2, "d": b"xy"}, {}),
     ]
     for i, (r, v, kw) in enumerate(explicit):
         if not ctx.mine(i):
@@ -340,6 +348,26 @@ def truncations(ctx, r, d, kw, e):
                     break
                 except Exception as x:
                     ctx.violation("foreign-exception:" + site_key(x), "cut at %d of %d: raised %s: %s" % (t, len(e), type(x).__name__, str(x)[:150]), case)
+                    break
+            # the same truncations once more on the same construct object, each preceded by inputs that are rejected part-way through
+            # a byte / a field (what a rejected call leaves behind must not turn a strict prefix into an accepted input)
+            poisons = [bytes([e[0] ^ m]) + e[1:] for m in (0x30, 0x03, 0xf0, 0x81)] + [e[:1], bytes([e[0] ^ 0x20])] if e else []
+            for t in range(len(e)):
+                for pz in poisons[t % 2::2]:
+                    try:
+                        d.parse(pz, **kw)
+                    except Exception:
+                        pass
+                ctx.ev()
+                case = {"monitor": "b", "recipe": r, "kw": kw, "encoding": tag(e), "cut": t, "after_rejected_inputs": True}
+                try:
+                    res = d.parse(e[:t], **kw)
+                    ctx.violation("truncated-input-accepted-after-rejected-calls:" + trunc_key(r, e, t, kw), "after calls on rejected inputs the same object accepted the first %d of %d bytes -> %r" % (t, len(e), res), case)
+                    break
+                except C.ConstructError:
+                    pass
+                except Exception as x:
+                    ctx.violation("foreign-exception:" + site_key(x), "cut at %d of %d after rejected calls: raised %s: %s" % (t, len(e), type(x).__name__, str(x)[:150]), case)
                     break
             ctx.count("b_encodings")
             ctx.count("b_truncations", len(e))
